@@ -1,8 +1,35 @@
+//! Harness over `p2panda-net` / `p2panda-discovery`.
+//!
+//! C26 wire framing, C27 address book LWW, C28 discovery backoff bounds, C29 gossip overlay
+//! reference counting (probe actor behind `Gossip::verif_from_actor`), C30 confidential discovery,
+//! plus two stages that the lead merges into properties owned elsewhere: `C18` (self-published
+//! transport records are always accepted as newer) and `C21` (codec/duplex variant of the log
+//! sync deadlock check).
+//!
+//! Clock note: `p2panda-core/test_utils` is enabled in this build, so `Timestamp::now()` reads the
+//! thread-local `mock_instant` clock (0 in every fresh thread). Only C18 depends on it; C27 sets
+//! all timestamps explicitly; C28 uses `std::time::Instant` (real, monotone).
+
+mod c18;
+mod c21;
+mod c26;
+mod c27;
+mod c28;
+mod c29;
+mod c30;
+
 use vh_common::Args;
 
 fn main() {
     let args = Args::parse();
     match args.prop.as_str() {
-        other => panic!("vh-net does not serve {other} yet"),
+        "C18" => c18::run(&args),
+        "C21" => c21::run(&args),
+        "C26" => c26::run(&args),
+        "C27" => c27::run(&args),
+        "C28" => c28::run(&args),
+        "C29" => c29::run(&args),
+        "C30" => c30::run(&args),
+        other => panic!("vh-net does not serve {other}"),
     }
 }
